@@ -147,7 +147,7 @@ def discharge(ob, axioms, timeout_ms=20000, want_model=True):
         return {"status": "refuted", "time": total, "backend": "z3", "model": s0.model() if want_model else None, "reason": ""}
     # portfolio: the same query as SMT-LIB text to cvc5 and to the older z3 binary (their sequence solvers succeed on
     # many queries where z3 5.x gives up, and vice versa); the first `unsat` wins
-    ext = external_portfolio(hyps, axioms, ob.goal, min(timeout_ms, 15000))
+    ext = external_portfolio(hyps, axioms, ob.goal, min(timeout_ms, 30000))
     total += ext["time"]
     if ext["status"] == "proved":
         return {"status": "proved", "time": total, "backend": ext["backend"], "model": None, "reason": ""}
